@@ -62,6 +62,7 @@ class Exec:
         self.tids = {}  # scenario index -> tid (truth, recorded at enqueue)
         self.issued = []
         self.clients = []
+        self.cancel_named = []  # ids clients literally asked to cancel
         self.trace = []
         self.final_seen = {}
         self.max_live = 0
@@ -73,14 +74,19 @@ class Exec:
         sc = self.sc
         wd = self.scratch
         logs = os.path.join(wd, ".gwf", "logs")
-        if sc.get("log_fail"):
+        if sc.get("log_fail") is True:
             import shutil
 
             shutil.rmtree(os.path.join(wd, ".gwf"), ignore_errors=True)
         else:
             os.makedirs(logs, exist_ok=True)
+            import shutil
+
             for f in os.listdir(logs):
-                os.remove(os.path.join(logs, f))
+                q = os.path.join(logs, f)
+                shutil.rmtree(q) if os.path.isdir(q) else os.remove(q)
+            for i in sc.get("log_fail") or ():
+                os.mkdir(os.path.join(logs, f"t{i}.stdout"))  # the log of task i cannot be written (a directory is in the way)
         facts = self.facts
         me = self
 
@@ -94,6 +100,8 @@ class Exec:
 
             async def cancel_task(self, tid):
                 idx = me._idx_of_tid(tid)
+                if me.clients and not any(type(x) is type(tid) and x == tid for x in me.cancel_named):
+                    idx = None  # no client asked for this id to be cancelled: whatever happens to the task is not its owner's doing
                 if idx is not None:
                     st = self.task_states.get(tid)
                     name = st.name if st is not None else None
@@ -154,6 +162,11 @@ class Exec:
                 dstate = self.state_name(d)
                 if df["exit"] != 0 or dstate != "COMPLETED":
                     self.violations.append(("C11", "task started although a dependency has not completed successfully",
+                                            dict(task=idx, dep=d, dep_exit=df["exit"], dep_state=dstate)))
+                elif df["cancel_nonfinal"] and not df["cancel_after_exit0"]:
+                    # the dependency was cancelled while it had not finished (the pool said CANCELLED at that instant): whatever
+                    # its process did afterwards, its dependents must not run
+                    self.violations.append(("C11", "task started although a dependency was cancelled before it finished",
                                             dict(task=idx, dep=d, dep_exit=df["exit"], dep_state=dstate)))
             live = [p.tag for p in self.world.live() if not p.killed]  # SIGTERM may be ignored; SIGKILL may not
             self.max_live = max(self.max_live, len(live))
@@ -283,10 +296,13 @@ class Exec:
             feed(dict(__kind__="get_task_states"))
         elif kind == "state1":
             c["expect"] += 1
+            c.setdefault("state1_tids", []).append(op[1])
             feed(dict(__kind__="get_task_state", tid=op[1]))
         elif kind == "cancel":
             i = op[1]
-            feed(dict(__kind__="cancel_task", tid=self.tids.get(i, 900 + i) if isinstance(i, int) else i))
+            tid = self.tids.get(i, 900 + i) if isinstance(i, int) else i
+            self.cancel_named.append(tid)
+            feed(dict(__kind__="cancel_task", tid=tid))
         elif kind == "close":
             feed(dict(__kind__="close"))
         elif kind == "raw":
@@ -390,7 +406,7 @@ class Exec:
                 out.append(("C11", "task ran although a dependency did not complete", dict(task=i, states=states)))
             f = self.facts[i]
             # logs of a task that ran to its natural end
-            if not sc.get("log_fail") and (st == "COMPLETED" or (st == "FAILED" and f["exit"] not in (None, -9) and not f["killed"])):
+            if not (sc.get("log_fail") is True or i in (sc.get("log_fail") or ())) and (st == "COMPLETED" or (st == "FAILED" and f["exit"] not in (None, -9) and not f["killed"])):
                 want = sc.get("payloads", {}).get(i, (b"", b""))
                 for ext, data in ((".stdout", want[0]), (".stderr", want[1])):
                     p = os.path.join(self.scratch, ".gwf", "logs", f"t{i}{ext}")
@@ -400,8 +416,40 @@ class Exec:
         for p in self.world.procs:
             if p.alive:
                 out.append(("C13", "process still alive at the horizon", dict(proc=p.tag)))
+        if self.clients:
+            # C14: whatever a misbehaving client sent, every accepted task ends as its owner's requests and the environment determine
+            out += [("C14", w, d) for p_, w, d in list(out) if p_ in ("C11", "C13") and w.startswith(("final task state", "task ran although"))]
         out += self.client_checks()
+        out += self.capacity_probe()
         return out
+
+    def capacity_probe(self):
+        """After everything has finished the pool must still have exactly `cores` cores: cores+1 fresh independent tasks are
+        enqueued; exactly `cores` of them must be running at the next quiescent point, and all of them must run eventually.
+        Observes processes only (no scheduler internals)."""
+        cores = self.sc["cores"]
+        if any(p.alive for p in self.world.procs) or any(not t.done() for t in self.sched.tasks.values()):
+            return []  # reported elsewhere
+        saved, self.world.listeners = self.world.listeners, []
+        try:
+            n0 = len(self.world.procs)
+            for k in range(cores + 1):
+                self.loop.do(self.loop.create_task, self.sched.enqueue_task(name=f"probe{k}", script=f"true probe{k}", working_dir=self.scratch, time_limit=None, deps=[]))
+            self.loop.run_quiescent()
+            live_first = len(self.world.live())
+            guard = 0
+            while self.world.live() and guard < 4 * (cores + 1):
+                guard += 1
+                self.loop.do(self.world.live()[0].deliver_exit, 0)
+                self.loop.run_quiescent()
+            spawned = len(self.world.procs) - n0
+        finally:
+            self.world.listeners = saved
+        if live_first != cores or spawned != cores + 1:
+            detail = dict(cores=cores, running_at_once=live_first, ran_in_total=spawned, probes=cores + 1)
+            what = "after all tasks finished the pool no longer runs exactly `cores` tasks at once"
+            return [("C12", what, detail)] + ([("C14", what, detail)] if self.clients else [])
+        return []
 
     def client_checks(self):
         """C14: ids unique, state answers true, healthy clients served, accepted tasks final."""
@@ -411,6 +459,7 @@ class Exec:
         if len(set(self.issued)) != len(self.issued):
             out.append(("C14", "the pool issued one task id twice", dict(issued=self.issued)))
         for c in self.clients:
+            c["state1_seen"] = 0
             lines = c["writer"].lines()
             snaps = c["writer"].snapshots
             enq_seen = 0
@@ -427,6 +476,16 @@ class Exec:
                         if self.tids.get(idx) != msg["tid"]:
                             out.append(("C14", "task_enqueued answered with an id that is not the task's own", dict(client=c["name"], task=idx, answered=msg["tid"], true=self.tids.get(idx))))
                     enq_seen += 1
+                elif kind == "task_state":
+                    asked = c.get("state1_tids", [])
+                    n1 = c.get("state1_seen", 0)
+                    c["state1_seen"] = n1 + 1
+                    truth = snaps[k] if k < len(snaps) else None
+                    if n1 < len(asked) and truth is not None:
+                        tid = asked[n1]
+                        want = truth.get(str(tid)) if type(tid) is int else None
+                        if msg.get("state") != want:
+                            out.append(("C14", "task_state answer differs from the true state of the id asked about", dict(client=c["name"], asked=tid, answered=msg.get("state"), true=want)))
                 elif kind == "task_states":
                     truth = snaps[k] if k < len(snaps) else None
                     if truth is not None and msg["tasks"] != truth:
